@@ -3,7 +3,11 @@ from vf.props import reg, COMMON_ASSUMPTIONS
 
 reg(Prop(
     'C15',
-    [Harness('c15_roundtrip', parts=16, thorough_cfg='asan1')],
+    [Harness('c15_roundtrip', parts=16, thorough_cfg='asan1'),
+     # thorough only: the quick workload without sanitizer instrumentation under valgrind memcheck (libstdc++.so -
+     # iostream, locale, codecvt, the extern-template std::string members - is not ASan-instrumented)
+     Harness('c15_roundtrip_memcheck', src=['c15_roundtrip.cpp'], cfg='plain', runner='valgrind', tiers=('thorough',),
+             parts=16, run_tier='quick', alarm=900)],
     rule='Cases: chunks of values for io::write->bytes->io::read (+ byte order by shifting, endianness::swap twice, convert twice, convert '
          'vs byte reversal) over all 8/16-bit integers, the 32/64-bit lattice + seeded random values, float/double incl. +-0, denormals, inf and '
          'arbitrary bit patterns (bit comparison); output_to_std_(w)string -> extract_from_string for signed/unsigned char..unsigned long long '
